@@ -94,40 +94,63 @@ fn designate(c: &Compiler, mut f: usize, mut k: usize) -> Option<(usize, usize)>
 /// level. It must designate the innermost binding of that name: the last matching local of the
 /// current function, else the last matching local of the nearest enclosing function (through a
 /// chain of upvalues whose index is the *current* function's own), else a global.
-pub fn resolve_var_nested<S: Src, const DEPTH: usize, const PRE: usize>(s: &mut S) {
+/// one-letter names in harness-owned one-byte buffers: address and length are concrete, the letter
+/// (a, b or c; d for the query) is solver-chosen
+fn fill_names<S: Src>(s: &mut S, buf: &mut [u8; 16], letters: u8) {
+    let mut i = 0;
+    while i < 16 {
+        buf[i] = b'a' + s.below(letters);
+        i += 1;
+    }
+}
+
+fn name_at(buf: &[u8; 16], i: usize) -> &str {
+    unsafe { std::str::from_utf8_unchecked(&buf[i..i + 1]) }
+}
+
+pub fn resolve_var_nested<S: Src, const DEPTH: usize, const N0: usize, const N1: usize, const N2: usize, const PRE: usize>(s: &mut S) {
+    // the number of locals per level and of earlier resolves is concrete per harness (a
+    // solver-chosen count makes every ArrayVec access a symbolic-offset access into 6 KB)
+    let ncount = [N0, N1, N2];
+    let mut pool = [0u8; 16];
+    fill_names(s, &mut pool, 3);
+    // the queried name may also be one that is bound nowhere
+    pool[15] = b'a' + s.below(4);
+    let pool = pool;
     let mut c = Compiler::new();
-    let mut names = [[9usize; MAXL]; 3];
+    let mut names = [[9u8; MAXL]; 3];
     let mut counts = [0usize; 3];
+    let mut next = 0usize;
     let mut lvl = 0;
     while lvl <= DEPTH {
         if lvl > 0 {
             c.verif_compile_begin();
         }
         c.verif_scope_begin();
-        let n = s.below(MAXL as u8 + 1) as usize;
+        let n = ncount[lvl];
         let mut i = 0;
         while i < n {
-            let k = s.below(3) as usize;
-            let slot = c.verif_add_local(NAMES[k]);
+            let slot = c.verif_add_local(name_at(&pool, next));
             assert!(slot == Some(i as u32), "C01.scope.locals_get_consecutive_slots");
-            names[lvl][i] = k;
+            names[lvl][i] = pool[next];
+            next += 1;
             i += 1;
         }
         counts[lvl] = n;
         if lvl > 0 {
-            let pre = s.below(PRE as u8 + 1) as usize;
+            let pre = PRE;
             let mut j = 0;
             while j < pre {
-                let k = s.below(3) as usize;
-                let _ = c.verif_resolve_var(NAMES[k]);
+                let _ = c.verif_resolve_var(name_at(&pool, next));
+                next += 1;
                 j += 1;
             }
         }
         lvl += 1;
     }
     assert!(c.verif_function_id() == DEPTH, "harness.depth");
-    let q = s.below(4) as usize;
-    let r = c.verif_resolve_var(NAMES[q]);
+    let q = pool[15];
+    let r = c.verif_resolve_var(name_at(&pool, 15));
     // reference: innermost binding
     let mut found: Option<(usize, usize)> = None;
     let mut l = DEPTH as isize;
@@ -141,7 +164,6 @@ pub fn resolve_var_nested<S: Src, const DEPTH: usize, const PRE: usize>(s: &mut 
                 break;
             }
         }
-        // level 0 is only visible as the enclosing function of a closure (DEPTH >= 1)
         l -= 1;
     }
     match (r, found) {
@@ -177,7 +199,7 @@ pub fn scope_end_emits<S: Src>(s: &mut S) {
     let n0 = s.below(3) as usize;
     let mut i = 0;
     while i < n0 {
-        let _ = c.verif_add_local(NAMES[i]);
+        let _ = c.verif_add_local(match i { 0 => "a", 1 => "b", _ => "c" });
         i += 1;
     }
     c.verif_scope_begin();
@@ -275,7 +297,7 @@ pub fn super_depth_all<S: Src, const LEN: usize>(s: &mut S) {
 // ------------------------------------------------------------------------------------------
 // unit level: function name resolution
 
-const FN_NAMES: [&str; 8] = ["f", "superf", "a.f", "a.superf", "a.b.f", "a.b.c.f", "a.c.f", "c.f"];
+const FN_NAMES: [&str; 9] = ["f", "superf", "a.f", "a.superf", "a.b.f", "a.b.c.f", "a.c.f", "c.f", "a.super.c.c"];
 const QUERIES: [&str; 5] = ["f", "superf", "c.f", "a.f", "zz"];
 const NONE: usize = 99;
 /// rule does not apply
@@ -322,7 +344,7 @@ fn split_super(alias: &str) -> (usize, &str) {
 }
 
 /// The caller lives in module NS (0: root, 1: `a`, 2: `a.b`) and sees the import IMP; which of
-/// the eight candidate functions exist is solver-chosen (2^8 tables), as is the name called.
+/// the nine candidate functions exist is solver-chosen (2^9 tables); every name of QUERIES is called.
 /// The call must resolve to the first existing function in the order the language defines:
 /// absolute path, the caller's own module, a function import, a module-prefix import (`super.`
 /// walking up from the caller's module), and to nothing otherwise - never to anything else.
@@ -344,7 +366,7 @@ pub fn resolve_function_ctx<S: Src, const NS: usize, const IMP: usize>(s: &mut S
         _ => Some(("f", "super.super.super.f")),
     };
     let mut c = Compiler::new();
-    let mut present = [false; 8];
+    let mut present = [false; 9];
     let mut i = 0;
     while i < FN_NAMES.len() {
         present[i] = s.bool();
@@ -383,35 +405,74 @@ pub fn resolve_function_ctx<S: Src, const NS: usize, const IMP: usize>(s: &mut S
         }
         qi += 1;
     }
-    let q = s.below(QUERIES.len() as u8) as usize;
-    let got = c.verif_resolve_function(QUERIES[q]);
-    let mut want: Option<usize> = None;
-    let mut r = 0;
-    while r < 4 {
-        let ci = cand[q][r];
-        if ci == TOO_DEEP {
-            break;
+    // every query in turn (concrete strings: hashing and path building fold to constants; the
+    // solver-chosen part is which functions exist)
+    let mut q = 0;
+    while q < QUERIES.len() {
+        let got = c.verif_resolve_function(QUERIES[q]);
+        let mut want: Option<usize> = None;
+        let mut r = 0;
+        while r < 4 {
+            let ci = cand[q][r];
+            if ci == TOO_DEEP {
+                break;
+            }
+            if ci < FN_NAMES.len() && present[ci] {
+                want = Some(ci);
+                break;
+            }
+            r += 1;
         }
-        if ci < FN_NAMES.len() && present[ci] {
-            want = Some(ci);
-            break;
+        match (got, want) {
+            (None, None) => {}
+            (Some((h, ar)), Some(w)) => {
+                assert!(h == Handle::from_u32(w as u32 + 1), "C08.resolve.call_designates_the_function_the_rules_select");
+                assert!(ar == w as u32, "C08.resolve.arity_is_the_designated_functions");
+            }
+            (Some(_), None) => assert!(false, "C08.resolve.unresolvable_name_is_an_error"),
+            (None, Some(_)) => assert!(false, "C08.resolve.resolvable_name_compiles"),
         }
-        r += 1;
-    }
-    match (got, want) {
-        (None, None) => {}
-        (Some((h, ar)), Some(w)) => {
-            assert!(h == Handle::from_u32(w as u32 + 1), "C08.resolve.call_designates_the_function_the_rules_select");
-            assert!(ar == w as u32, "C08.resolve.arity_is_the_designated_functions");
-        }
-        (Some(_), None) => assert!(false, "C08.resolve.unresolvable_name_is_an_error"),
-        (None, Some(_)) => assert!(false, "C08.resolve.resolvable_name_compiles"),
+        q += 1;
     }
     std::mem::forget(c);
     s.reached("c08.resolve_function_ctx");
 }
 
+// ------------------------------------------------------------------------------------------
+// unit level: stage 1, registering functions
+
+/// Two functions are registered one after the other; each lives in a solver-chosen module
+/// (root, `a`, `a.b`) under a solver-chosen one-letter name (f or g). The second registration is
+/// rejected exactly when both have the same full dotted name, and afterwards a call by full
+/// name reaches the function registered under it.
+pub fn add_function_duplicates<S: Src>(s: &mut S) {
+    let mut letters = [0u8; 2];
+    letters[0] = b'f' + s.below(2);
+    letters[1] = b'f' + s.below(2);
+    let m0 = s.below(3) as usize;
+    let m1 = s.below(3) as usize;
+    let ns_of = |m: usize| -> &'static [&'static str] {
+        match m {
+            0 => &[],
+            1 => &["a"],
+            _ => &["a", "b"],
+        }
+    };
+    let n0 = unsafe { std::str::from_utf8_unchecked(&letters[0..1]) };
+    let n1 = unsafe { std::str::from_utf8_unchecked(&letters[1..2]) };
+    let mut c = Compiler::new();
+    let first = c.verif_add_function_ir(ns_of(m0), n0, Handle::from_u32(1), 0);
+    assert!(first, "C08.register.first_function_is_accepted");
+    let second = c.verif_add_function_ir(ns_of(m1), n1, Handle::from_u32(2), 1);
+    let same = m0 == m1 && letters[0] == letters[1];
+    assert!(second == !same, "C08.register.second_function_is_rejected_exactly_for_a_duplicate_full_name");
+    std::mem::forget(c);
+    s.reached("c08.add_function_duplicates");
+}
+
 crate::harnesses! {
+    #[kani::stub(std::hash::RandomState::new, crate::stub_random_state)]
+    cx_add_function_duplicates / 12 => add_function_duplicates;
     #[kani::stub(std::hash::RandomState::new, crate::stub_random_state)]
     #[kani::stub(alloc::fmt::format, crate::stub_format)]
     cx_resolve_fn_ns0_imp0 / 12 => resolve_function_ctx::<_, 0, 0>;
@@ -487,11 +548,15 @@ crate::harnesses! {
     #[kani::stub(alloc::fmt::format, crate::stub_format)]
     cx_compile_probe / 12 => compile_probe;
     #[kani::stub(std::hash::RandomState::new, crate::stub_random_state)]
-    cx_resolve_var_d0 / 8 => resolve_var_nested::<_, 0, 0>;
+    cx_resolve_var_d0 / 18 => resolve_var_nested::<_, 0, 3, 0, 0, 0>;
     #[kani::stub(std::hash::RandomState::new, crate::stub_random_state)]
-    cx_resolve_var_d1 / 8 => resolve_var_nested::<_, 1, 2>;
+    cx_resolve_var_d1 / 18 => resolve_var_nested::<_, 1, 3, 1, 0, 1>;
     #[kani::stub(std::hash::RandomState::new, crate::stub_random_state)]
-    cx_resolve_var_d2 / 8 => resolve_var_nested::<_, 2, 2>;
+    cx_resolve_var_d1b / 18 => resolve_var_nested::<_, 1, 2, 2, 0, 2>;
+    #[kani::stub(std::hash::RandomState::new, crate::stub_random_state)]
+    cx_resolve_var_d2 / 18 => resolve_var_nested::<_, 2, 2, 1, 1, 2>;
+    #[kani::stub(std::hash::RandomState::new, crate::stub_random_state)]
+    cx_resolve_var_d2b / 18 => resolve_var_nested::<_, 2, 3, 2, 0, 1>;
     #[kani::stub(std::hash::RandomState::new, crate::stub_random_state)]
     cx_scope_end_emits / 8 => scope_end_emits;
     cx_super_depth_7 / 16 => super_depth_all::<_, 7>;
